@@ -11,7 +11,7 @@ P = {
          "Trusts: rustc/std; proptest's generators and shrinking; the harness's decomposition search (written from the statement). Evidence = no counterexample among the cases counted in the evidence file, on both cargo feature sets."),
  "C02": ("property-based testing: generated multi-paragraph texts x indent pairs x widths against a width/unbreakability validity predicate with an independent display-width model",
          "Exploration: each first-fit output line is measured (own escape scanner + width table) against the room left by the indent it is rendered with; an over-wide line must be a single in-context fragment (break_words off) or have at most one non-zero-width character (break_words on).",
-         "Trusts: the library's find_words/split_words as the definition of break opportunity/split point (decided separately by C11/C12); unicode-width tables; proptest."),
+         "Quantifies over texts in which every ESC begins a well-formed sequence. Trusts: the library's find_words/split_words as one definition of break opportunity/split point (decided separately by C11/C12) next to library-free tests (ASCII boundaries, hyphen split points by C12's statement); unicode-width tables; proptest."),
  "C03": ("property-based testing against a reference model: O(n^2) exact-integer dynamic program over all break positions (fragment level) and a text-level partition-recovery DP",
          "Exploration with an independent optimiser: for every generated fragment sequence the cost (harness cost function, u128 arithmetic) of the returned arrangement must equal the DP minimum over all 2^(n-1) arrangements and not exceed first-fit's; at the wrap level the cheapest fragment partition consistent with the output must cost the DP minimum.",
          "Decided only for integer-valued widths with all costs < 2^53, penalty width <= next fragment width, line 0 may differ from later lines; n <= 60. Trusts the documented cost model as transcribed into the harness."),
@@ -20,7 +20,7 @@ P = {
          "Absence of panics is only shown for the generated inputs (<= 256 bytes / <= 64 fragments); hang detection is a watchdog, not a termination proof; wrap_columns widths capped at 10^4 (output size)."),
  "C05": ("differential testing of two code paths (upstream cfg(fuzzing) entry points: shortcut vs general path) plus a width-sweep validity check",
          "Exploration: wrap_single_line vs wrap_single_line_slow_path and fill vs fill_slow_path must agree on every generated (line, options, prior-line) case, widths concentrated between display width and byte length; and a paragraph that fits yields exactly indent+trimmed paragraph at every width of a sweep.",
-         "Needs the existing upstream guard --cfg fuzzing (no source hook added). 'Every splitter' is read as the built-in non-inserting splitters for the fits-unchanged half (see DESIGN C05 note)."),
+         "Needs the existing upstream guard --cfg fuzzing (no source hook added). 'Every splitter' is read as the built-in non-inserting splitters for the fits-unchanged half (see DESIGN C05 note). Cases matching the open known finding KF-C05-1 (an escape sequence containing a fragment boundary) are excluded before the assertion and counted in excluded_known; see known_findings.json."),
  "C06": ("property-based testing: arbitrary finite f64 fragments/line widths/usize penalties against a partition validity predicate using pointer identity of the returned slices",
          "Exploration: lines returned by both algorithms must be non-empty contiguous sub-slices whose start pointers and lengths tile the input exactly, in order; empty input gives one empty line.",
          "Err(OverflowError) results are counted, not judged. Trusts proptest."),
@@ -44,7 +44,7 @@ P = {
          "Custom splitters restricted to the documented contract of split_points."),
  "C13": ("metamorphic testing: wrap(coloured) stripped == wrap(stripped) for generated insertions of well-formed sequences under the property's side conditions",
          "Exploration: 0..6 SGR/OSC-8 sequences inserted at generated positions (mid-word included), both separators/algorithms, widths that force character-level breaking; sequence list preserved in order, no line ends inside a sequence.",
-         "Sequences never touch a hyphen when the hyphen splitter is active and always touch a non-space character (side conditions of the statement)."),
+         "Sequences never touch a hyphen when the hyphen splitter is active and always touch a non-space character (side conditions of the statement). Cases matching the open known finding KF-C13-1 (hyphen splitter and a hyperlink whose URL contains a hyphen split point) are excluded before the assertion and counted in excluded_known; see known_findings.json."),
  "C14": ("metamorphic testing: idempotence fill(fill(t,o),o)==fill(t,o) on the stated domain, with one open known finding excluded by signature and counted",
          "Exploration of the idempotence relation over full-alphabet texts; domain conditions of the statement evaluated per case.",
          "Cases matching KF-C14-1 (hyphen splitter cuts inside an escape sequence) are excluded before the assertion and counted in excluded_known; see known_findings.json."),
@@ -109,7 +109,7 @@ def main():
              "kind_free_text": "Rust crate: proptest strategies -> serializable case structs -> per-property oracles; 16 fixed shards seeded from VERIF_SEED; shrinking; JSON replay; regression and known-finding replays; built twice (textwrap default features / no default features) against /repo's working tree with overflow checks and debug assertions"},
         ],
         "checks": checks,
-        "notes": "Exit 0 = held on everything explored (KNOWN-FINDING lines possible); exit 1 + VIOLATION line; exit 2 = inconclusive (build failure, unhealthy generator, watchdog). Repairs of genuine defects are the five 'fix:' commits in /repo, recorded in /verif/known_findings.json.",
+        "notes": "Exit 0 = held on everything explored (KNOWN-FINDING lines possible); exit 1 + VIOLATION line; exit 2 = inconclusive (build failure, unhealthy generator, watchdog). Repairs of genuine defects are the five 'fix:' commits in /repo, recorded in /verif/known_findings.json together with three open findings of one root cause (KF-C05-1, KF-C13-1, KF-C14-1). Sensitivity evidence: MUTATION.md, mutants/, seeded/.",
     }
     if na:
         m["not_applicable"] = na
